@@ -15,6 +15,27 @@
 // construction, receiver methods abstracted as function parameters (declared per target), and
 // "prefix" targets: the values of named locals just before the first call of a named function.
 // The meaning of the emitted vocabulary (zfor, znth, zupd, ...) is coq/Render/RgLib.v.
+//
+// Normal forms (so that behaviour-preserving rewrites of the Go code give the same or a provably equal
+// term): the whole package directory is loaded (a declaration may live in any file); constants - package
+// level or function-local const blocks - are used by VALUE (a named constant and the literal give the
+// same term; array lengths may be constant expressions); `range` over an array uses its length from the
+// type (zfor 0 n, the same as the index loop); early return / nested if-else, switch (desugared to an if
+// chain), if with an init clause and bare blocks are all one continuation-passing translation (code after
+// an if that leaves on some paths only follows both branches); every block is a scope (a shadowing
+// declaration gets a Gallina name of its own and the outer variable is back when the scope ends); loops
+// over small arrays (tuples) and loops with constant bounds that leave early are unrolled, the loop
+// variable being a constant of each copy (so t[k] works on tuples; continue / break / return inside);
+// a[lo:hi] is zslice (both names frozen: no write through an alias is modelled); *p = v assigns the
+// variable p stands for; == on arrays / vectors is component-wise; append takes several values; tuple
+// results may be assigned to elements (a[i], b[i] = f(x)); helpers taking the struct parameters of their
+// caller (methods or functions, with or without a result) are inlined, helpers with plain parameters
+// become definitions of their own, listed in the hint database rg_helpers that the equality proofs
+// unfold.  Trace targets name their sinks semantically (a call of the target on a value of the receiver's
+// type; Write on a parameter of the writer interface), whatever the variables are called; loops whose
+// body makes traced calls become flat_map.  Fail closed: a function writing through a pointer / slice
+// parameter, a copy of a pointer that is written through, assignment after &x or re-slicing, traced calls
+// in a loop or branch that also assigns variables, anything not understood -> error = broken tie.
 package rendergen
 
 import (
@@ -34,8 +55,8 @@ import (
 type kind int
 
 const (
-	kT kind = iota // float64
-	kInt           // int, uint
+	kT   kind = iota // float64
+	kInt             // int, uint
 	kBool
 	kV2
 	kV3
@@ -369,6 +390,10 @@ func (p *pkg) mutated(fset *token.FileSet, name string) string {
 				e = x.X
 			case *ast.ParenExpr:
 				e = x.X
+			case *ast.StarExpr:
+				e = x.X
+			case *ast.SliceExpr:
+				e = x.X
 			case *ast.SelectorExpr:
 				e = x.X
 			case *ast.Ident:
@@ -410,6 +435,12 @@ func (p *pkg) mutated(fset *token.FileSet, name string) string {
 // ---------------------------------------------------------------- type resolution
 
 func (g *gen) goType(p *pkg, sf *srcFile, e ast.Expr) (typ, error) {
+	return g.goTypeIn(p, sf, e, nil)
+}
+
+// goTypeIn resolves a type expression; en (may be nil) holds the function-local constants an
+// array length may be written with ([numEdges]v3.Vec)
+func (g *gen) goTypeIn(p *pkg, sf *srcFile, e ast.Expr, en env) (typ, error) {
 	switch x := e.(type) {
 	case *ast.Ident:
 		switch x.Name {
@@ -423,8 +454,10 @@ func (g *gen) goType(p *pkg, sf *srcFile, e ast.Expr) (typ, error) {
 			return typ{k: kOpaque, named: x.Name}, nil
 		}
 		return g.namedType(p, x.Name)
+	case *ast.ParenExpr:
+		return g.goTypeIn(p, sf, x.X, en)
 	case *ast.StarExpr:
-		return g.goType(p, sf, x.X) // a pointer is the value it points to (see `&x`)
+		return g.goTypeIn(p, sf, x.X, en) // a pointer is the value it points to (see `&x`)
 	case *ast.SelectorExpr:
 		if id, ok := x.X.(*ast.Ident); ok {
 			if q := g.byPath[sf.imports[id.Name]]; q != nil {
@@ -433,7 +466,7 @@ func (g *gen) goType(p *pkg, sf *srcFile, e ast.Expr) (typ, error) {
 			return typ{k: kOpaque, named: id.Name + "." + x.Sel.Name}, nil
 		}
 	case *ast.ArrayType:
-		el, err := g.goType(p, sf, x.Elt)
+		el, err := g.goTypeIn(p, sf, x.Elt, en)
 		if err != nil {
 			return typ{}, err
 		}
@@ -443,13 +476,22 @@ func (g *gen) goType(p *pkg, sf *srcFile, e ast.Expr) (typ, error) {
 		if x.Len == nil {
 			return listType(el, -1), nil
 		}
-		lit, ok := x.Len.(*ast.BasicLit)
-		if !ok || lit.Kind != token.INT {
-			return typ{}, fmt.Errorf("array length %s is not a literal", exprString(x.Len))
+		// the length is a constant expression: a literal, a named constant (package-level or
+		// function-local), arithmetic on them
+		if en == nil {
+			en = env{}
 		}
-		n, err := strconv.Atoi(lit.Value)
-		if err != nil || n < 1 {
-			return typ{}, fmt.Errorf("array length %s", lit.Value)
+		lf := &fctx{g: g, p: p, file: sf, key: "(array length)"}
+		lv, err := lf.expr(x.Len, en)
+		if err != nil {
+			return typ{}, fmt.Errorf("array length %s: %v", exprString(x.Len), err)
+		}
+		if !lv.konst || lv.rat == nil || !lv.rat.IsInt() || !lv.rat.Num().IsInt64() {
+			return typ{}, fmt.Errorf("array length %s is not an integer constant", exprString(x.Len))
+		}
+		n := int(lv.rat.Num().Int64())
+		if n < 1 || n > 1<<20 {
+			return typ{}, fmt.Errorf("array length %d", n)
 		}
 		return arrType(el, n), nil
 	case *ast.MapType, *ast.InterfaceType, *ast.ChanType, *ast.FuncType:
@@ -531,6 +573,14 @@ func exprString(e ast.Expr) string {
 		return "(" + exprString(x.X) + ")"
 	case *ast.UnaryExpr:
 		return x.Op.String() + exprString(x.X)
+	case *ast.SliceExpr:
+		str := func(e ast.Expr) string {
+			if e == nil {
+				return ""
+			}
+			return exprString(e)
+		}
+		return exprString(x.X) + "[" + str(x.Low) + ":" + str(x.High) + "]"
 	case *ast.BinaryExpr:
 		return exprString(x.X) + x.Op.String() + exprString(x.Y)
 	}
